@@ -33,7 +33,7 @@ from simkit.world import (  # noqa: E402
 )
 
 PROPERTY = "C08"
-RUNS = {"quick": 7_000, "thorough": 2_000_000}
+RUNS = {"quick": 6_000, "thorough": 2_000_000}
 WALL = {"quick": 55, "thorough": 1500}
 BATCH = {"quick": 125, "thorough": 1000}
 SELFTEST_RUNS = 24
@@ -100,7 +100,8 @@ EXPECTED_PROBES = [
     "probe.batch_of_one_with_timeout_processed_at_once",
     "probe.shift_boundary_truncates_below_float", "probe.gate_time_truncates_below_float",
     "probe.batch_timeout_truncates_below_float", "probe.raise_at_truncated_boundary_with_backlog",
-    "probe.zero_capacity_queue", "probe.gate_touching_intervals", "probe.gate_overlapping_intervals", "probe.outside_change_before_run", "probe.outside_change_while_paused", "probe.outside_limit_raised_under_backlog",
+    "probe.zero_capacity_queue", "probe.auto_terminating_run", "probe.auto_terminated_with_daemon_events_pending",
+    "probe.instant_worker", "probe.reneged_without_target", "probe.gate_touching_intervals", "probe.gate_overlapping_intervals", "probe.outside_change_before_run", "probe.outside_change_while_paused", "probe.outside_limit_raised_under_backlog",
     "probe.outside_grace_ended_by_trigger", "probe.policy_purge_removed", "probe.policy_purge_left_3plus", "probe.policy_query", "probe.pipeline_purge_removed",
 ]
 SHRINK_SKIP = ("kind", "type", "model", "mode", "flow", "flow_weights", "max_p", "weight", "prob", "op")
@@ -290,6 +291,20 @@ def gen_pipeline(rng, tier, seed):
     stages = [gen_stage(rng, k0, serial, avoid)]
     if rng.random() < 0.3:
         stages.append(gen_stage(rng, rng.choice(kinds), serial, avoid, idx=1))
+    # a share of runs in the engine's default auto-terminating mode (no end_time): only primary events keep the run
+    # alive, so driver bookkeeping must not be what a waiting item depends on.  Their last stage is often a worker
+    # that leaves no event behind: an instant (non-generator) worker without downstream, or a reneging desk whose
+    # reneged customers just leave.
+    auto = rng.random() < 0.2
+    if auto and rng.random() < 0.7:
+        if rng.random() < 0.5:
+            last = {"kind": "driver", "limit": 1, "policy": gen_policy_cfg(rng), "svc": {"mode": "instant"},
+                    "sinkless": rng.random() < 0.8}
+        else:
+            last = gen_stage(rng, "reneging", serial, avoid, idx=len(stages) - 1)
+            last["no_reneged_sink"] = True
+            last["patience_ticks"] = rng.choice([0, 0, 1, 2])
+        stages[-1] = last
     n = rng.randint(2, 60 if tier == "quick" else 300) if rng.random() < 0.85 else rng.randint(2, 6)
     span = rng.randint(1, 30)
     ms_ns = _ms_instants(stages)
@@ -339,7 +354,7 @@ def gen_pipeline(rng, tier, seed):
                 purge.append({"tick": rng.choice(cand) + rng.choice([0, 1, 2, 3, 5]), "stage": si})
     return {"seed": seed, "kind": "pipeline", "serial": serial, "offgrid": offgrid, "stages": stages,
             "flow_weights": {f: rng.randint(1, 3) for f in FLOWS}, "arrivals": arrivals, "ctl": ctl, "purge": purge,
-            "outside": outside}
+            "outside": outside, "auto": auto}
 
 
 def gen_policy(rng, tier, seed):
@@ -436,7 +451,10 @@ def _validate_stage(st):
     if k in QR_KINDS:
         _validate_policy(st.get("policy"))
         svc = st.get("svc")
-        _need(isinstance(svc, dict) and svc.get("mode") in ("const", "seq", "item"), "svc")
+        _need(isinstance(svc, dict) and svc.get("mode") in ("const", "seq", "item", "instant"), "svc")
+        _need(svc["mode"] != "instant" or k == "driver", "instant worker")
+        _need(isinstance(st.get("sinkless", False), bool) and (not st.get("sinkless") or svc["mode"] == "instant"), "sinkless")
+        _need(isinstance(st.get("no_reneged_sink", False), bool), "no_reneged_sink")
         if svc["mode"] == "const":
             _need(_isint(svc.get("ticks"), 0), "svc ticks")
         if svc["mode"] == "seq":
@@ -508,6 +526,8 @@ def _validate(sc):
               and _isint(c.get("limit", 1), 0), "ctl")
         s = st[c.get("stage", 0)]
         _need(s["kind"] == "server" and s["conc"]["model"] == "dynamic", "ctl target")
+    _need(isinstance(sc.get("auto", False), bool), "auto")
+    _need(not any(s.get("sinkless") for s in st[:-1]), "sinkless stage must be last")
     for o in sc.get("outside", []):
         _need(isinstance(o, dict) and _isint(o.get("at", 0), 0) and _isint(o.get("stage", 0), 0, len(st) - 1)
               and o.get("op", "changed") in ("limit", "changed") and _isint(o.get("limit", 1), 0), "outside")
@@ -586,7 +606,11 @@ def run_pipeline(sc):
             raise
         return result(sig=f"C08/{sig}", msg=repr(exc), klass="construct")
     horizon = _horizon_ticks(sc) * TICK
-    sim = Simulation(entities=pipe.entities(), end_time=Instant(horizon))
+    auto = bool(sc.get("auto"))
+    if auto:
+        sim = Simulation(entities=pipe.entities())       # the engine's default: auto-terminate when only daemon events remain
+    else:
+        sim = Simulation(entities=pipe.entities(), end_time=Instant(horizon))
     for e in pipe.initial_events():
         sim.schedule(e)
     # capacity changes made from OUTSIDE the running loop: before run() ("at" 0) and while the run is paused
@@ -630,11 +654,12 @@ def run_pipeline(sc):
             status, payload = guarded(sim.control.resume)
     cut = False
     if status == "ok":
-        if sim._event_heap.has_events() and any(not e.cancelled for e in sim._event_heap._heap):
+        left = [e for e in sim._event_heap._heap if not e.cancelled and not (auto and e.daemon)]
+        if left:
             cut = True          # horizon cut the run: quiescence is not judged
         else:
             try:
-                pipe.at_end()
+                pipe.at_end(lenient=auto and any(e.daemon and not e.cancelled for e in sim._event_heap._heap))
             except Violation as v:
                 status, payload = "violation", v
     sig, msg = _outcome(status, payload)
@@ -643,6 +668,10 @@ def run_pipeline(sc):
     ctx = pipe.ctx
     counters = dict(ctx.probe)
     counters["run.horizon_cut"] = int(cut)
+    if auto:
+        counters["probe.auto_terminating_run"] = 1
+        if any(e.daemon and not e.cancelled for e in sim._event_heap._heap):
+            counters["probe.auto_terminated_with_daemon_events_pending"] = 1
     counters["run.budget"] = int(status == "budget")
     for st in pipe.stages:
         counters[f"kind.{st.cfg['kind']}"] = counters.get(f"kind.{st.cfg['kind']}", 0) + 1
